@@ -53,6 +53,9 @@ class ReceiveData(Contract):
         post = [("cursor-in-stream", z3.And(pos >= pos0, pos <= z3.Length(stream))),
                 ("out-untouched", st.get(a["sock"], "out").e == old.get(a["sock"], "out").e)]
         fatal = st.get(a["sock"], "fatal").e
+        # "returns exactly the next n bytes however the operating system fragments them": a read that merely came back short (also with MSG_WAITALL: signal, pause
+        # of the peer) is fragmentation, not the end - the connection counts as closed only once a read reported end of stream or a fatal error occurred
+        post.append(("connection-closed is raised only after a read reported end of stream or a fatal socket error", z3.Or(st.get(a["sock"], "eof").e, fatal)))
         if st.has(exc, "partialData"):
             pd = st.get(exc, "partialData")
             post.append(("partialData==received-so-far", pd.e == z3.SubSeq(stream, pos0, pos - pos0)))
